@@ -501,3 +501,116 @@ func loopOf(f *an.Fn, n ast.Node) ast.Node {
 	}
 	return nil
 }
+
+func init() {
+	old := All["C11"].Run
+	All["C11"].Run = func(c *an.Ctx) {
+		old(c)
+		c11maxGroupIDScans(c)
+		c11groupCountFromTruncatedStart(c)
+	}
+	All["C11"].Rules += " R8 R9"
+	addLevel("C11", "the newest shard group (whose shard key a later ALTER applies to) is found by scanning every group's id, not by position in the end-time ordered slice; the record writer counts the groups of a batch from the start truncated to the group duration.")
+}
+
+// c11maxGroupIDScans — C11.R8.  RetentionPolicyInfo.ShardGroups is sorted by END TIME; a group
+// created later for an older time range (back-fill) has the largest id but is not last.  The
+// shard key history (which key placed the rows of which group) is indexed by group id, so the
+// "largest group id so far" must be computed by scanning all groups.
+func c11maxGroupIDScans(c *an.Ctx) {
+	const M = "lib/util/lifted/influx/meta"
+	r := c.Rule("C11.R8", "K-LOOPSELECT", M+":(*RetentionPolicyInfo).maxShardGroupID — the largest shard group id is found by a scan over every group")
+	f := fn(r, M+":RetentionPolicyInfo.maxShardGroupID")
+	if f == nil {
+		return
+	}
+	// a comparison of a group's ID inside a loop over recv.ShardGroups
+	cmp := f.Find(an.MNode("<acc> < recv.ShardGroups[i].ID (inside the loop)", func(g *an.Fn, m ast.Node) bool {
+		be, ok := m.(*ast.BinaryExpr)
+		if !ok || (be.Op.String() != "<" && be.Op.String() != ">") {
+			return false
+		}
+		c0, c1 := g.Canon(be.X), g.Canon(be.Y)
+		return strings.Contains(c0+" "+c1, "recv.ShardGroups[") && strings.Contains(c0+" "+c1, ".ID")
+	}))
+	r.AddSites(cmp.Len())
+	if cmp.Len() == 0 {
+		r.Fail(f.Name+": no scan", c.P.Pos(f.Body.Pos()), "maxShardGroupID no longer compares the ids of the groups: the slice is ordered by end time, the last element is not the group with the largest id after a back-fill")
+		return
+	}
+	if f.LoopBodyEntry(cmp.List[0]) < 0 {
+		r.Fail(f.Name+": comparison outside a loop", c.P.Pos(cmp.List[0].Node.Pos()), "the id comparison is not inside a loop over the groups")
+	}
+}
+
+// c11groupCountFromTruncatedStart — C11.R9.  A record batch spanning [start, end] touches the
+// shard groups from the one containing start to the one containing end: (end − trunc(start)) / d
+// + 1 groups.  Counted from the raw start, a batch that crosses a group boundary but is shorter
+// than d gets one group; the rows behind the boundary are written to no shard while the request
+// reports success.
+func c11groupCountFromTruncatedStart(c *an.Ctx) {
+	const CO = "coordinator"
+	r := c.Rule("C11.R9", "K-PREDSHAPE", CO+":(*recordWriterHelper).createShardGroupsByTimeRange — the number of shard groups of a batch is counted from the start truncated to the group duration")
+	f := fn(r, CO+":recordWriterHelper.createShardGroupsByTimeRange")
+	if f == nil {
+		return
+	}
+	n := 0
+	okShape := false
+	ast.Inspect(f.Body, func(m ast.Node) bool {
+		be, ok := m.(*ast.BinaryExpr)
+		if !ok || be.Op.String() != "/" {
+			return true
+		}
+		den := f.Canon(be.Y)
+		if !strings.Contains(den, "ShardGroupDuration") {
+			return true
+		}
+		n++
+		num := f.Canon(be.X)
+		truncated := strings.Contains(num, ".Truncate(") && strings.Contains(num, "ShardGroupDuration")
+		if !truncated {
+			// the start may be held in a variable: its latest assignment before the division decides
+			ast.Inspect(be.X, func(k ast.Node) bool {
+				id, ok := k.(*ast.Ident)
+				if !ok {
+					return true
+				}
+				v, ok := f.Info.Uses[id].(*types.Var)
+				if !ok || v.IsField() {
+					return true
+				}
+				var last ast.Expr
+				ast.Inspect(f.Body, func(q ast.Node) bool {
+					as, ok := q.(*ast.AssignStmt)
+					if !ok || as.Pos() >= be.Pos() || len(as.Lhs) != len(as.Rhs) {
+						return true
+					}
+					for i, l := range as.Lhs {
+						if lid, ok := l.(*ast.Ident); ok && (f.Info.Uses[lid] == v || f.Info.Defs[lid] == v) {
+							last = as.Rhs[i]
+						}
+					}
+					return true
+				})
+				if last != nil {
+					if lc := f.Canon(last); strings.Contains(lc, ".Truncate(") && strings.Contains(lc, "ShardGroupDuration") {
+						truncated = true
+					}
+				}
+				return true
+			})
+		}
+		if truncated {
+			okShape = true
+		} else {
+			r.Fail(f.Name+": count from the raw start", c.P.Pos(be.Pos()), "the number of shard groups is computed as %s / %s: the span is not measured from the start truncated to the group duration, a batch that crosses a group boundary within less than one duration gets one group too few", num, den)
+		}
+		return true
+	})
+	r.AddSites(n)
+	if n == 0 {
+		r.Fail(f.Name+": shape", c.P.Pos(f.Body.Pos()), "no division by the shard group duration found: the group count is computed in a way this rule cannot read")
+	}
+	_ = okShape
+}
